@@ -21,7 +21,7 @@ macro_rules | `(tactic| sim_leaf) => `(tactic| first
   | exact sim_setObs _ _ _
   | exact sim_update _ _
   | exact sim_remove _
-  | exact sim_create _ (.scalar _) trivial)
+  | exact sim_create _ _)
 
 /-- structural descent through bind / if / loops -/
 macro "sim_auto" : tactic => `(tactic| repeat (first
@@ -42,12 +42,11 @@ theorem sim_addListToAF (name : String) (arr : List V) :
   cases arr[i]? <;> sim_auto
 macro_rules | `(tactic| sim_leaf) => `(tactic| exact sim_addListToAF _ _)
 
-theorem sim_setItem (name : String) (init : Init V)
-    (hok : match init with | .scalar _ => True | .list l => n ≤ l.length) :
+theorem sim_setItem (name : String) (init : Init V) :
     Sim n (fun _ => True) (setItem (σ := St V) name init) (setItem (σ := ATab V) name init) := by
   unfold setItem
   refine sim_bind (sim_has name) (fun b _ => ?_)
-  exact sim_ite _ (sim_update name init) (sim_create name init hok)
+  exact sim_ite _ (sim_update name init) (sim_create name init)
 
 theorem sim_setCoordFromAF (o : Ops V) (c name : String) :
     Sim n (fun _ => True) (setCoordFromAF (σ := St V) o c name) (setCoordFromAF (σ := ATab V) o c name) := by
@@ -161,10 +160,7 @@ theorem sim_reverser (o : Ops V) (inp out : String) :
   unfold reverser
   refine sim_bind sim_size (fun k hk => ?_)
   refine sim_bind (sim_mapL (Q := fun _ => True) _ (fun i _ => sim_getObs o inp _)) (fun temp ht => ?_)
-  refine sim_setItem out (.list temp) ?_
-  simp only [List.length_range] at ht
-  simp only
-  omega
+  exact sim_setItem out (.list temp)
 
 theorem sim_logVoid (o : Ops V) (inp out : String) :
     Sim n (fun _ => True) (logVoid (σ := St V) o inp out) (logVoid (σ := ATab V) o inp out) := by
@@ -172,10 +168,7 @@ theorem sim_logVoid (o : Ops V) (inp out : String) :
   refine sim_bind sim_size (fun k hk => ?_)
   refine sim_bind (sim_mapL (Q := fun _ => True) _ (fun i _ => ?_)) (fun temp ht => ?_)
   · sim_auto
-  refine sim_setItem out (.list temp) ?_
-  simp only [List.length_range] at ht
-  simp only
-  omega
+  exact sim_setItem out (.list temp)
 
 theorem sim_runVFn (o : Ops V) (f : VFn) (inp out : String) :
     Sim n (fun _ => True) (runVFn (σ := St V) o f inp out) (runVFn (σ := ATab V) o f inp out) := by
